@@ -51,6 +51,8 @@ fn main() {
             let idx: Option<usize> = a.get("index").and_then(|s| s.parse().ok());
             let case = match (case.as_array(), idx) { (Some(arr), Some(i)) => arr[i].clone(), _ => case };
             let case = if case.get("last_events_then_the_running_one").is_some() { serde_json::json!({"initial": case["initial"], "events": case["last_events_then_the_running_one"]}) } else { case };
+            // records that keep the events of one case of a long-lived context under another name
+            let case = if case.get("events").is_none() && case.get("session").is_none() && case.get("events_of_this_case").is_some() { serde_json::json!({"initial": case["initial"], "events": case["events_of_this_case"]}) } else { case };
             std::process::exit(sess::replay(oracle::Data::load(), &case));
         }
         "stream" => {
